@@ -14,6 +14,10 @@ CHECKS = {
    "TLA+ model of Write's filesystem steps with a Crash action (DirImpl) checked exhaustively by TLC against the contract monitor (DirContract); the real Write is run on a real directory with a crash injected at every step point of every Write of enumerated sequences, every filesystem projection judged by TLC against the same monitor",
    "every crash point (between any two filesystem operations, one crash exhaustively, two crashes sampled/exhaustive in thorough) of every sequence of 1-3 (4) Writes over 5 file sets is executed on the real code and real filesystem; the reader's view is projected at every step and judged by the TLA+ monitor; TLC separately explores the model of the steps exhaustively (15M states thorough)",
    "a crash is modelled as a panic out of Write at a verif step point (state on disk is what the completed syscalls left; no power-loss/unsynced-data semantics); trusted: TLC, the projection function in the harness", "DESIGN.md#c18"),
+ "C15": ("model_checking",
+   "TLA+ state machine of the cache with two-step Cleanup/Reset (TTLCache/TTLModel) checked exhaustively by TLC for the C15 clauses; every bounded operation sequence executed on the real cache (fake clock) and concurrent histories (call/return order, staged scan/sweep window, Stop vs parked cleaner) validated by TLC as behaviours of the same spec (linearization search)",
+   "TLC checks the three clauses on all interleavings of 2 clients + cleaner (16M states thorough); the real cache is driven through every op sequence up to length 5 (6) over a 10-letter alphabet and through thousands of concurrent histories, each accepted only if TLC finds silent linearization steps explaining every Get result",
+   "trusted: TLC, k8s FakeClock, the order of call/return records (taken under one mutex); the periodic cleaner is over-approximated (may scan at any time while on), which can only hide, never invent, a violation", "DESIGN.md#c15"),
 }
 
 def hook_commits():
